@@ -22,6 +22,16 @@ def gen(tier, seed):
                 stmts = ["add r0 r0 #1"] * n
                 stmts.insert(pos, f"{m} far")
                 cases.append(("emit-error", "\n".join(stmts + [".blkw x900", "far halt"]) + "\n"))
+    # the same for programs of every size class: the out-of-range reference (backward over K padding words, or forward)
+    # at the first, a middle and the last statement; K just beyond each field's reach so that the TOTAL size sweeps
+    # 258 .. 4100 words (no size threshold may exempt a program from being emitted completely before the file is touched)
+    for k in ([256, 257, 300, 509, 510, 511, 600, 1023, 1024, 1030, 2050, 4097] if tier == "quick" else list(range(256, 520, 7)) + [600, 1023, 1024, 1025, 2047, 2048, 2049, 4095, 4096, 4097, 9000]):
+        for m in ("br", "ld r1", "jsr"):
+            if m == "jsr" and k < 1030:
+                continue
+            cases.append(("emit-error-size", f"far halt\n.blkw #{k}\n{m} far\n"))                       # last statement, backward
+            cases.append(("emit-error-size", f"{m} far\n.blkw #{k}\nfar halt\n"))                       # first statement, forward
+            cases.append(("emit-error-size", f"add r0 r0 #1\nfar halt\n.blkw #{k}\n{m} far\nadd r0 r0 #1\nhalt\n"))   # middle
     cases.append(("ok", "halt\n")); cases.append(("ok", "a add r0 r0 #1\nbr a\nhalt\n"))
     cases.append(("parse-error", "halt\nadd r0\n")); cases.append(("lex-error", "halt\n`\n"))
     cases.append(("label-error", "halt\nbr nowhere\n")); cases.append(("ok", ".orig x4000\nlea r0 s\nputs\nhalt\ns .stringz \"x\"\n"))
@@ -65,7 +75,7 @@ def correspondence(ctx, violations, known_hits):
     jobs, meta = [], []
     for i in range(len(cases)):
         for dk in dests:
-            if dk in ("devfull", "missingdir", "isdir") and cases[i][0] == "emit-error" and i % 7 != 0:
+            if dk in ("devfull", "missingdir", "isdir") and cases[i][0].startswith("emit-error") and i % 7 != 0:
                 continue      # destination faults are orthogonal to the failing statement position: sample them
             jobs.append(job(i, dk)); meta.append((i, dk))
     res = clicommon.parallel(jobs)
